@@ -209,12 +209,8 @@ class LitGen:
         if st == "direct":
             return P("direct", name, spec, ws=ws, fld=name)
         expr = name
-        if spec_ty(spec) == "p":
-            # `{:p}` with a plain field argument is left out: the documentation says it prints the address of
-            # the reference to the field, but a lone such placeholder is delegated "transparently" and prints
-            # the field itself (a C02/C05 matter, not this property's); `*field` is unambiguous
-            if generic:
-                return P("direct", name, spec, ws=ws, fld=name)
+        if spec_ty(spec) == "p" and not generic and rng.random() < 0.6:
+            # through an argument a field is a reference to the field; `*field` is the field itself
             expr = "*" + name
         if st == "alias":
             return P("alias", expr, spec, name=rng.choice(aliases), ws=ws, fld=name)
